@@ -45,7 +45,9 @@ func tableTP() *rm.Table {
 		Fields: []rm.Field{
 			{Name: "a", Expr: sumA},
 			{Name: "av", Expr: rm.Agg{Kind: "AVG", Val: "a"}},
+			{Name: "p50", Expr: rm.Agg{Kind: "P50", Val: "a", Bounded: true, Lo: 0, Hi: 10}},
 			{Name: "mx", Expr: rm.Agg{Kind: "MAX", Val: "a"}},
+			{Name: "sa", Expr: sumA}, // SHIFT only acts when a query re-aggregates; natively sa == a
 		}}
 }
 
